@@ -1,5 +1,6 @@
 """C13 — coroutines resume once, after the awaited event, with its outcome, where asked (structural clauses)."""
 from rules import c05, lib_coro, lib_core, lib_head, lib_ready
+from vlib import pathwalk
 
 
 def check_promise_forms(ctx, fb, rule, cfg):
@@ -147,6 +148,114 @@ def check_await_event(ctx, fb, rule):
     return n
 
 
+class _FormWalker(pathwalk.Walker):
+    """await_suspend of a scheduling awaiter: ('handoff', loc) for every call that is given the coroutine (its promise
+    or handle); the Walker returns the value of each path's return statement"""
+    loop_bound = 1
+
+    def __init__(self, fb, coro_ids):
+        super().__init__(fb)
+        self.coro_ids = coro_ids
+
+    def on_node(self, fn, n, st):
+        if n['k'] == 'BinaryOperator' and n.get('op') == '=' and len(n.get('ch', [])) == 2:
+            # parking the coroutine in a field somebody else will read (`this->job = &core`) hands it on as well
+            l = fn.sn(n['ch'][0])
+            if l is not None and l['k'] == 'MemberExpr' and not (l.get('dn') or '').endswith('::_executor'):
+                for d in [n['ch'][1]] + list(fn.descendants(n['ch'][1])):
+                    m = fn.nodes[d]
+                    if m['k'] == 'DeclRefExpr' and m.get('id') in self.coro_ids:
+                        st.events.append(('handoff', fn.loc(n)))
+                        return
+        if n['k'] in ('CXXMemberCallExpr', 'CallExpr') and n.get('args'):
+            last = n.get('cn', '').split('::')[-1]
+            if last in ('promise', 'address', 'from_promise', 'from_address'):
+                return
+            for a in n['args']:
+                for d in [a] + list(fn.descendants(a)):
+                    m = fn.nodes[d]
+                    if m['k'] == 'DeclRefExpr' and m.get('id') in self.coro_ids:
+                        st.events.append(('handoff', fn.loc(n)))
+                        return
+
+
+def check_awaiter_forms(ctx, fb, rule):
+    """R-AWAITERFORM — the suspend contract of the awaiters that schedule the coroutine themselves (On, Yield,
+    CurrentExecutor ...): await_suspend that ends with `true` / without a value leaves the coroutine suspended, so the
+    path must have handed it to somebody (a call that receives the promise or the handle); a path that returns
+    `false` resumes it at once and must NOT have handed it on (it would run twice); and when every path of
+    await_suspend hands the coroutine to an executor, await_ready is constant false (otherwise the coroutine just
+    continues inline on the awaiting thread and never reaches that executor).  Paths that return a computed value
+    (the outcome of a registration) are R-SUSPEND's business."""
+    n = 0
+    ready = {}
+    for f in fb.fn.values():
+        if f.n == 'await_ready' and f.cfg is not None and f.clsq.startswith('yaclib::'):
+            ready.setdefault(f.cls, []).append(f)
+    for f in sorted(fb.fn.values(), key=lambda f: f.full):
+        if f.n != 'await_suspend' or f.cfg is None or not f.clsq.startswith('yaclib::') or not f.params:
+            continue
+        coro = {f.params[0]}
+        for d in f.own_nodes():
+            if d['k'] == 'DeclStmt':
+                for v in d['vars']:
+                    if 'init' in v and any(f.nodes[x].get('cn', '').split('::')[-1] == 'promise'
+                                           for x in [v['init']] + list(f.descendants(v['init']))):
+                        coro.add(v['id'])
+        res = _FormWalker(fb, coro).run(f)
+        rets = [x for x in f.own_nodes() if x['k'] == 'ReturnStmt' and x.get('ch') and x['ch'][0] is not None and x['ch'][0] >= 0]
+        const_only = all(f.sn(x['ch'][0]) is not None and f.sn(x['ch'][0])['k'] == 'CXXBoolLiteralExpr' for x in rets)
+        if not const_only:
+            continue           # computed outcome: R-SUSPEND
+        # a registration whose outcome is branched on (`if (_mutex.AwaitLock(promise)) return true;`) is a computed
+        # outcome as well
+        conds = set()
+        for x in f.own_nodes():
+            if x['k'] in ('IfStmt', 'ConditionalOperator', 'WhileStmt') and x.get('cond') is not None:
+                conds |= {x['cond']} | set(f.descendants(x['cond']))
+        if any(c['i'] in conds and any(f.nodes[d]['k'] == 'DeclRefExpr' and f.nodes[d].get('id') in coro
+                                       for a in c.get('args', []) for d in [a] + list(f.descendants(a)))
+               for c in f.calls()):
+            continue
+        key = 'R-AWAITERFORM %s::await_suspend' % f.clsq
+        n += 1
+        ctx.instance(rule, key + ' :: ' + f.full[:120], dict(paths=len(res)))
+        always = bool(res)
+        bad = None
+        for st, rv in res:
+            hand = [e for e in st.events if e[0] == 'handoff']
+            val = None
+            if rv is not None and rv[0] == 'c':
+                val = bool(rv[1])
+            stays = val is None or val is True
+            if stays and not hand:
+                bad = (f.where, 'a path leaves the coroutine suspended (returns %s) without having handed it to anybody: '
+                       'it is never resumed' % ('true' if val else 'nothing'))
+            elif not stays and hand:
+                bad = (hand[0][1], 'a path hands the coroutine on and then returns false: it is resumed twice')
+            if not hand:
+                always = False
+            if bad:
+                break
+        if bad:
+            ctx.report(rule, key, bad[0], bad[1], 'instantiation: ' + f.full[:300])
+            continue
+        pure = all(c['cn'].split('::')[-1] in ('promise', 'Submit', 'Get', 'operator->', 'operator=', 'operator*',
+                                                'operator bool', 'IntrusivePtr') for c in f.calls())
+        if always and pure:
+            for g in ready.get(f.cls, []):
+                grets = [x for x in g.own_nodes() if x['k'] == 'ReturnStmt' and x.get('ch')]
+                ok = grets and all((g.sn(x['ch'][0]) or {}).get('k') == 'CXXBoolLiteralExpr' and
+                                   not g.sn(x['ch'][0]).get('v') for x in grets)
+                if not ok:
+                    ctx.report(rule, 'R-AWAITERFORM %s::await_ready' % f.clsq, g.where, 'this awaiter schedules the '
+                               'coroutine onto an executor in await_suspend, so await_ready must be constant false: '
+                               'otherwise the coroutine continues inline on the awaiting thread and never reaches the '
+                               'executor it asked for', 'instantiation: ' + g.full[:300])
+                    break
+    return n
+
+
 def run(ctx):
     fbs = ctx.facts(['K20', 'K20n', 'KF'], kinds=('probe', 'lib'), only=r'p_coro\.cpp$|src/algo|src/exe|src/lazy', tests=r'/test/',
                     quick_tests=r'unit/coro/(await|on|future_coro_traits)\.cpp')
@@ -174,7 +283,13 @@ def run(ctx):
                    minimum=6)
     rl = ctx.rule('R-LOOPCALLER', 'Here() of a callback object that is not a BaseCore returns nullptr on every path (the '
                   'Loop would call the returned core with that object as its caller)', minimum=15)
+    raf = ctx.rule('R-AWAITERFORM', 'scheduling awaiters (On, Yield, CurrentExecutor, ...): a path of await_suspend that '
+                   'leaves the coroutine suspended has handed it to somebody, a path returning false has not; '
+                   'await_ready is constant false when await_suspend always hands the coroutine to an executor',
+                   minimum=3)
     for cfg, fb in sorted(fbs.items()):
+        if (ctx.guard(lambda: check_awaiter_forms(ctx, fb, raf)) or 0) < 2 and cfg == 'K20':
+            ctx.guard(lambda: ctx.broken('R-AWAITERFORM: On / Yield / CurrentExecutor awaiters not instantiated'))
         ctx.guard(lambda: lib_core.check_loop_caller(ctx, fb, rl))
         if (ctx.guard(lambda: check_await_event(ctx, fb, rae)) or 0) < 2:
             ctx.guard(lambda: ctx.broken('R-AWAITEVENT: AwaitEvent::Impl not instantiated in %s' % cfg))
